@@ -38,6 +38,7 @@ inductive LE where
   | and (ls : LEs)
   | or (ls : LEs)
   | not (l : LE)
+  | iff (a b : LE)          -- `a <==> b`: flattened as the comparison `a - b == 0` of the two result variables
 inductive LEs where
   | nil
   | cons (l : LE) (t : LEs)
@@ -73,6 +74,7 @@ def LE.eval (x : Asg) : LE → Rat
   | .and ls => b2r ((ls.evals x).all (fun q => q == 1) = true)
   | .or ls => b2r ((ls.evals x).any (fun q => q == 1) = true)
   | .not l => 1 - l.eval x
+  | .iff a b => b2r (a.eval x = b.eval x)
 def LEs.evals (x : Asg) : LEs → List Rat
   | .nil => []
   | .cons l t => l.eval x :: t.evals x
@@ -98,6 +100,7 @@ def LE.vok (n0 : Nat) : LE → Bool
   | .and ls => ls.vok n0
   | .or ls => ls.vok n0
   | .not l => l.vok n0
+  | .iff a b => a.vok n0 && b.vok n0
 def LEs.vok (n0 : Nat) : LEs → Bool
   | .nil => true
   | .cons l t => l.vok n0 && t.vok n0
@@ -289,6 +292,10 @@ def flatL : LE → FS → Var × FS
   | .not l, S =>
     let r1 := flatL l S
     mkDef (.not r1.1) r1.2
+  | .iff a b, S =>        -- VisitIff = VisitRelationalExpression<EQ>: the same path as `==` on the two result variables
+    let r1 := flatL a S
+    let r2 := flatL b r1.2
+    mkDef (normCmp (leadNeg ([(1, r1.1)] ++ negLin [(1, r2.1)])) .eq (condBody ([(1, r1.1)] ++ negLin [(1, r2.1)])) (0 - 0)) r2.2
 def flatLs : LEs → FS → List Var × FS
   | .nil, S => ([], S)
   | .cons l t, S =>
